@@ -529,6 +529,14 @@ func subscribeRoute(c *core.Child, env *build.Env, f *model.FieldDef, tn string,
 	if got := harness.CanonArgs(subs[0].Args); got != harness.CanonArgs(want) {
 		report("subscription", text, "metamorphic:subscribe-vs-query", fmt.Sprintf("the Subscribe function received %s, the query resolver received %s for the same variable", got, harness.CanonArgs(want)))
 	}
+	// the one source event is executed with the same (once-coerced) variables
+	if len(resolves) != 1 || run.Result == nil || len(run.Result.Errors) > 0 || run.Result.Data == nil {
+		msg := "no result"
+		if run.Result != nil {
+			msg = respcmp.Canon(run.Result)
+		}
+		report("subscription", text, "subscription-event-execution", fmt.Sprintf("the event of a subscription whose variable coerces was answered with %s (%d field resolver invocations, want 1 and no error)", msg, len(resolves)))
+	}
 	for _, e := range resolves {
 		if got := harness.CanonArgs(e.Args); got != harness.CanonArgs(want) {
 			report("subscription", text, "metamorphic:subscription-resolver-vs-query", fmt.Sprintf("the subscription field resolver received %s, the query resolver received %s", got, harness.CanonArgs(want)))
